@@ -87,6 +87,9 @@ CATALOGUE = [
     ("comma-after-mnemonic", ["{I}«mov », r0"], "invalid-insn", "critical", ("T",)),
     ("bad-caret-prefix", ["{I}«.word »^Q5"], "invalid-expression", "critical", ("T",)),
     # an infix operator without its right operand, the offending token separated from it by blanks, a tab, a comment or a line break
+    # a local label defined twice inside one scope (the second definition is the culprit)
+    ("duplicate-local-label", ["{I}7$: nop", "{I}«7$: clr r0"], "duplicate-symbol", "error", ("S",)),
+    ("duplicate-numeric-local-label", ["{I}77: nop", "{I}br 77", "{I}«77:\tclr r0"], "duplicate-symbol", "error", ("S",)),
     ("dangling-comma-insn", ["{I}«mov r0   », "], "invalid-operand", "critical", ("T",)),
     ("dangling-comma-insn-next-line", ["{I}«mov r0 ; why", "\t », "], "invalid-operand", "critical", ("T",)),
     ("dangling-operator-comma", ["{I}«.word 5 *   »,2"], "invalid-expression", "critical", ("T",)),
